@@ -193,4 +193,21 @@ example : (run 100 exCS).out = "42\n" ∧ (run 100 exCW).out = "42\n" := by deci
 example : HypC exCσ exCN exCS :=
   ⟨by decide +kernel, by decide +kernel, by decide +kernel⟩
 
+/-- the hypotheses of `link_env_order_irrelevant` hold of the two example packages -/
+example : Exports.WF [exE1, exE2] := by
+  intro e he f
+  simp only [List.mem_cons, List.not_mem_nil, or_false] at he
+  rcases he with rfl | rfl
+  · exact Exports.wf_ofList _ (by decide) f
+  · exact Exports.wf_ofList _ (by decide) f
+
+example : Exports.Consistent [exE1, exE2] := by
+  intro e1 h1 e2 h2 f k v1 v2 l1 l2
+  simp only [List.mem_cons, List.not_mem_nil, or_false] at h1 h2
+  rcases h1 with rfl | rfl <;> rcases h2 with rfl | rfl
+  · rw [l1] at l2; injection l2
+  · exact Exports.consistent_pair _ _ (by decide) f k v1 v2 l1 l2
+  · exact Exports.consistent_pair _ _ (by decide) f k v1 v2 l1 l2
+  · rw [l1] at l2; injection l2
+
 end Goml.C14
